@@ -153,3 +153,11 @@ package directive
 //@   requires c.file != nil && c.begin <= c.end + 1 && c.end < len(c.file.content)
 //@   ensures len(ret) == c.end + 1 - c.begin
 //@   ghostensures same(ret, bodyOf(c))
+
+//@ func (Directive).BodyError
+//@   tag C02 C01
+//@   requires d.keywordCoords.file != nil && d.keywordCoords.begin <= len(d.keywordCoords.file.content) && !isnil(d.includeTracer)
+//@   requires d.BodyCoords.file != nil ==> d.BodyCoords.begin <= len(d.BodyCoords.file.content)
+//@   modifies nothing
+//@   ensures ret != nil && (ret.file == d.BodyCoords.file || ret.file == d.keywordCoords.file)
+//@   ensures [C02] ret.file == d.BodyCoords.file && d.BodyCoords.file != nil && d.BodyCoords.end != 0 ==> ret.index == d.BodyCoords.begin
